@@ -565,6 +565,19 @@ theorem C20_gray_tables :
     fun role l₁ l₂ hr h => C20_gray_monotone levelsInt levels_sorted hlen role hr l₁ l₂ h,
     fun luma => C20_gray_underline levelsInt levels_sorted hne luma⟩
 
+/-! ## the true-colour probe -/
+
+/-- **Invariant of the true-colour probe.**  The colour `capabilities_detect` sets and asks back
+(`probeColour`, `#010203`) is the colour of NO entry of the 256-colour palette as the decoder reads it back
+(tables of the current build), so a terminal that maps direct colours to palette entries — and reports
+`48;5;N` — can never be taken for a true-colour terminal; `paletteIndexOf`, the function the harness uses through
+the driver to judge the probe colour the terminal object really sends, is `none` exactly for such colours. -/
+theorem C20_probe_not_palette :
+    (∀ i : Fin 256, (decoderPaletteRgb i.val).isSome ∧ decoderPaletteRgb i.val ≠ some probeColour) ∧
+    paletteIndexOf probeColour = none ∧
+    (∀ c : Nat × Nat × Nat, paletteIndexOf c = none ↔ ∀ i, i < 256 → decoderPaletteRgb i ≠ some c) :=
+  ⟨probe_outside, probe_index_none, paletteIndexOf_none⟩
+
 /-! ## the true-colour arm -/
 
 /-- In true-colour mode the colour is transmitted unchanged, for the role asked for.  This is a statement
